@@ -1,12 +1,12 @@
 #!/bin/bash
-# usage: confirm_seed.sh Cnn [patchfile]   -- confirms a seeded change in a scratch worktree of /repo:
+# usage: confirm_seed.sh Cnn [patchfile|""] [round-suffix, e.g. 2]   -- confirms a seeded change in a scratch worktree of /repo:
 #   demo passes without the patch; with the patch: repo builds, existing suite passes, demo fails.
-id=$1; seed=/tmp/seed-$id; patch=${2:-$seed/patch.diff}
+id=$1; suf=${3:-}; seed=/tmp/seed$suf-$id; patch=${2:-$seed/patch.diff}; [ -z "$patch" ] && patch=$seed/patch.diff
 wt=/tmp/confirm-$id
 git -C /repo worktree remove --force $wt >/dev/null 2>&1; rm -rf $wt
 git -C /repo worktree add --detach $wt HEAD >/dev/null 2>&1 || { echo "$id: cannot create worktree"; exit 2; }
 demo=$(ls $seed/zz_seed_*_test.go | head -1)
-rel=$(cd /tmp/wt-$id 2>/dev/null && git status --short | grep '^??' | grep zz_seed | awk '{print $2}' | head -1)
+rel=$(cd /tmp/wt$suf-$id 2>/dev/null && git status --short | grep '^??' | grep zz_seed | awk '{print $2}' | head -1)
 [ -z "$rel" ] && rel=$(grep -o '[a-z/]*zz_seed_[A-Za-z0-9_]*_test.go' $seed/notes.md | grep / | head -1)
 echo "$id: demo at $rel"
 export GOPROXY=off
